@@ -58,6 +58,8 @@ for kind, (nm, props, fns) in enumerate(ITER_KINDS):
     for n, tier, cost in ((3, "quick", 300), (4, "thorough", 1200)):
         if kind == 3 and n == 4:
             continue
+        if kind == 3:
+            n = 2
         h("whole_%s_n%d" % (nm, n), n + 3, "iters::whole::<_, %d, %d>" % (kind, n), props + ["C20"], tier,
           "any WF arena of N=%d slots; full traversal through the real constructor (stack re-homed into reserved capacity), probe prefix; %s; unwind %d" % (n, P8, n + 3), fns, cost=cost,
           stub="growmodel" if kind == 3 else "nogrow")
@@ -70,7 +72,7 @@ for kind, (nm, props, fns) in enumerate(CH_KINDS):
           "any WF arena of N=%d slots; any selector prefix (stored, branching, on an edge, absent, zero-length, host bits); full traversal; %s; unwind %d" % (n, P8, n + 3), fns, cost=cost)
 for kind, nm in enumerate(("iter", "iter_mut")):
     for n, k, tier, cost in ((3, 2, "quick", 200), (4, 2, "thorough", 800)):
-        h("step_%s_n%d" % (nm, n), n + 2, "iters::step::<_, %d, %d, %d, %d>" % (kind, n, k, k + 1), ["C03", "C14", "C13", "C20"], tier,
+        h("step_%s_n%d" % (nm, n), n + 2, "iters::step::<_, %d, %d, %d, %d>" % (kind, n, k, k + 1), ["C03", "C14", "C13", "C10", "C20"], tier,
           "any WF arena of N=%d slots and any injected stack of <= %d entries satisfying StackInv; one next(); probe slot; unwind %d" % (n, k, n + 2),
           ["Iter::next" if kind == 0 else "IterMut::next"], cost=cost)
 
@@ -78,6 +80,18 @@ for kind, nm in enumerate(("iter", "iter_mut")):
 h("eq_map_n2", 6, "misc::eq_map::<_, 2>", ["C19", "C20"], "quick",
   "two WF arenas of N=2 slots each; `==` and `!=` through the real iter() constructors (allocator model for the growing stacks); %s; unwind 6" % P8,
   ["<PrefixMap as PartialEq>::eq", "PrefixMap::iter", "Iter::next", "Iterator::eq"], cost=300, stub="growmodel")
+h("eq_map_n1", 4, "misc::eq_map::<_, 1>", ["C19", "C20"], "quick",
+  "two root-only arenas (any host bits, any value / none): `==` and `!=` through the real iter() constructors; covers empty vs non-empty and equal key with different host bits; unwind 4",
+  ["<PrefixMap as PartialEq>::eq", "PrefixMap::iter", "Iter::next", "Iterator::eq"], cost=60, stub="growmodel")
+h("eq_set_n1", 4, "misc::eq_set::<_, 1>", ["C19", "C20"], "quick",
+  "two root-only arenas (T=()): PrefixSet `==`; unwind 4", ["<PrefixSet as PartialEq>::eq", "set::Iter::next"], cost=60, stub="growmodel")
+for op, nm in enumerate(("insert", "remove", "remove_keep_tree", "entry().or_insert")):
+    h("hist2_%d" % op, 6, "misc::hist2::<_, %d>" % op, ["C01", "C04", "C15", "C16", "C18", "C20"], "quick",
+      "bounded history without any invariant: empty map (capacity reserved) -> insert(p1,v1) -> %s(p2,..) -> lookups, len; %s; unwind 6" % (nm, P8),
+      ["PrefixMap::insert", "PrefixMap::" + nm], cost=300)
+h("rebuild2", 6, "misc::rebuild2", ["C19", "C15", "C04", "C20"], "thorough",
+  "two maps built from the same two symbolic entries in opposite orders (capacity reserved): read-back of both arenas, same entries and same node set; unwind 6",
+  ["PrefixMap::insert"], cost=700)
 h("eq_map_n3", 7, "misc::eq_map::<_, 3>", ["C19"], "thorough", "two WF arenas of N=3 slots each; `==`/`!=`; unwind 7",
   ["<PrefixMap as PartialEq>::eq", "PrefixMap::iter", "Iter::next"], cost=1500, stub="growmodel")
 h("eq_set_n2", 6, "misc::eq_set::<_, 2>", ["C19", "C20"], "quick",
@@ -88,30 +102,44 @@ h("clone_n3", 5, "misc::clone_indep::<_, 3>", ["C19", "C04", "C20"], "quick",
 h("collect2", 8, "misc::collect2", ["C01", "C04", "C18", "C19", "C20"], "quick",
   "bounded history from new(): FromIterator over two symbolic (prefix, value) pairs in both orders, lookups, `==`; real Vec growth through the allocator model; %s; unwind 8" % P8,
   ["<PrefixMap as FromIterator>::from_iter", "PrefixMap::new", "PrefixMap::insert", "<PrefixMap as PartialEq>::eq"], cost=400, stub="growmodel")
-for n, f, tier, cost, mem in ((2, 1, "quick", 200, 12), (3, 1, "thorough", 2400, 28)):
-    h("retain_n%d" % n, n + 2, "misc::retain::<_, %d, %d>" % (n, f), ["C10", "C01", "C04", "C15", "C16", "C20"], tier,
-      "%s; retain with a predicate returning the k-th of %d symbolic decisions and observing the map at every invocation (models a panic there); recursion depth <= %d; unwind %d" % (pre_txt(n, f), n, n, n + 2),
-      ["PrefixMap::retain", "PrefixMap::_retain", "PrefixMap::_remove_node"], cost=cost, mem_gb=mem)
+for n, f, tier, cost, mem in ((2, 0, "quick", 200, 12), (3, 0, "thorough", 2400, 28)):
+    h("retain_n%d" % n, n + 1, "misc::retain::<_, false, false, %d, %d>" % (n, f), ["C10", "C01", "C04", "C20"], tier,
+      "%s; retain with a predicate returning the k-th of %d symbolic decisions; calls counted per entry; final state: probe lookup, len; recursion depth <= %d; unwind %d" % (pre_txt(n, f), n, n, n + 2),
+      ["PrefixMap::retain", "PrefixMap::_retain", "PrefixMap::_remove_node"], cost=cost, mem_gb=mem, optional=(n == 3))
+    h("retain_struct_n%d" % n, n + 1, "misc::retain::<_, false, true, %d, %d>" % (n, f), ["C15", "C16", "C10", "C20"], tier,
+      "%s; retain with a predicate returning the k-th of %d symbolic decisions; final state: WF, CANON (if canonical before), slot partition; unwind %d" % (pre_txt(n, f), n, n + 2),
+      ["PrefixMap::retain", "PrefixMap::_retain", "PrefixMap::_remove_node"], cost=cost, mem_gb=mem, optional=(n == 3))
+for n, tier, cost in ((2, "quick", 200), (3, "quick", 600)):
+    h("retain_lite_n%d" % n, n + 1, "misc::retain_lite::<_, false, %d>" % n, ["C10", "C01", "C04", "C20"], tier,
+      "%s; retain(keep even values): values are symbolic, so every combination of decisions is covered; calls counted, len, probe lookup; recursion depth <= %d; unwind %d" % (pre_txt(n, 0), n, n + 1),
+      ["PrefixMap::retain", "PrefixMap::_retain", "PrefixMap::_remove_node"], cost=cost)
+    h("retain_lite_struct_n%d" % n, n + 1, "misc::retain_lite::<_, true, %d>" % n, ["C15", "C16", "C10", "C20"], tier,
+      "%s; retain(keep even values); final state: WF, CANON (if canonical before), slot partition; unwind %d" % (pre_txt(n, 0), n + 2),
+      ["PrefixMap::retain", "PrefixMap::_retain", "PrefixMap::_remove_node"], cost=cost)
+h("retain_obs_n2", 3, "misc::retain::<_, true, false, 2, 0>", ["C20", "C10"], "quick",
+  "%s; retain with a predicate that reads the whole arena back at every invocation (models a panic at that invocation): WF, counter, entries = previous minus already rejected; unwind 4" % pre_txt(2, 0),
+  ["PrefixMap::retain", "PrefixMap::_retain", "PrefixMap::_remove_node"], cost=300, mem_gb=16)
 
 for kind, (nm, props, fns) in enumerate(CH_KINDS):
     for n, tier, cost in ((3, "quick", 60), (4, "thorough", 200)):
         h("children_init%d_n%d" % (kind, n), n + 2, "iters::children_init::<_, %d, %d>" % (kind, n), ["C10", "C20"], tier,
           "any WF arena of N=%d slots; any selector; the start stack of %s read back (Init obligation; the traversal from a one-entry stack is C03 Step); unwind %d" % (n, nm, n + 2),
           fns[:2], cost=cost)
-for n, tier, cost in ((3, "quick", 300), (4, "thorough", 1500)):
+for n, tier, cost in ((3, "thorough", 1500), (4, "thorough", 3000)):
     h("split_interleave_n%d" % n, 2 * n + 2, "misc::split_interleave::<_, %d>" % n, ["C14", "C11", "C13", "C20"], tier,
       "any WF arena of N=%d slots, any node with two children; split(), two IterMut advanced by %d symbolic scheduling decisions, then drained; arena read-back vs sequential result; unwind %d" % (n, 2 * n, 2 * n + 2),
-      ["TrieViewMut::split", "<TrieViewMut as IntoIterator>::into_iter", "IterMut::next", "Table::get_mut"], cost=cost, stub="growmodel")
-h("canon_unique_n3", 5, "misc::canon_unique::<_, 3>", ["C15"], "quick",
-  "specification-level lemma over two arenas of N=3 slots (no code under test): CANON + equal key sets => equal node sets", [], cost=30)
+      ["TrieViewMut::split", "<TrieViewMut as IntoIterator>::into_iter", "IterMut::next", "Table::get_mut"], cost=cost, stub="growmodel", optional=True)
+h("canon_unique_n4", 6, "misc::canon_unique::<_, 4>", ["C15"], "quick",
+  "specification-level lemma over two arenas of N=4 slots (no code under test): CANON + equal key sets => equal node sets", [], cost=30)
 
 # ------------------------------------------------------------------ C20: handle sequences, callbacks
-h("occ_seq_plain_n2", 4, "c20::occ_seq::<_, false, 2>", ["C20", "C04"], "quick",
+h("occ_seq_plain_n2", 4, "c20::occ_seq::<_, false, 255, 2>", ["C20", "C04"], "quick",
   "any WF arena of N=2 slots; entry(p) occupied, then two consecutive calls out of {get,get_mut,key} x {get,get_mut,key,remove,insert}; unwind 4",
   ["PrefixMap::entry", "OccupiedEntry::{get,get_mut,key,remove,insert}"], cost=60)
-h("occ_seq_after_remove_n2", 4, "c20::occ_seq::<_, true, 2>", ["C20", "C04"], "quick",
-  "any WF arena of N=2 slots; entry(p) occupied, remove() followed by one of {get,get_mut,key,remove,insert}; unwind 4",
-  ["PrefixMap::entry", "OccupiedEntry::{get,get_mut,key,remove,insert}"], cost=60)
+for op2, nm in ((0, "get"), (1, "get_mut"), (2, "key"), (3, "remove"), (4, "insert")):
+    h("occ_seq_after_remove_%s_n2" % nm, 4, "c20::occ_seq::<_, true, %d, 2>" % op2, ["C20", "C04"], "quick",
+      "any WF arena of N=2 slots; entry(p) occupied, remove() followed by %s() on the same handle; unwind 4" % nm,
+      ["PrefixMap::entry", "OccupiedEntry::remove", "OccupiedEntry::" + nm], cost=40)
 h("view_set_then_remove_n2", 4, "c20::view_set_then_remove::<_, 2>", ["C20", "C04", "C01", "C13"], "quick",
   "any WF arena of N=2 slots; TrieViewMut::set on a value-less node, then PrefixMap::remove of that key; unwind 4",
   ["TrieViewMut::set", "PrefixMap::remove", "PrefixMap::_remove_node"], cost=60)
@@ -131,7 +159,7 @@ for nm, ty, nbytes, keeps in ALG:
     h("alg_" + nm, 18, "algebra::algebra::<_, %s, %d, %s>" % (ty, nbytes, str(keeps).lower()), ["C17", "C20"], "quick",
       "three arbitrary prefixes of type %s (every %d-bit representation incl. host bits, every length 0..=%d) and every bit index 0..=255: the whole input space, no loop in the code under test (unwind 18 only bounds the harness' byte assembly)" % (ty, nbytes * 8, nbytes * 8),
       ["<%s as Prefix>::{from_repr_len,repr,prefix_len,mask,zero,contains,longest_common_prefix,is_bit_set,eq}" % ty, "prefix::mask_from_prefix_len"],
-      cost=40, stub="nostub", checks="default")
+      cost=40, stub="nostub", checks="lite", checks_thorough="default")
 
 # ------------------------------------------------------------------ set operations (Init + Step)
 FAMS = [("union", 0, "C05", ["TrieView::union", "Union::next", "union::{next_indices,next_indices_first_l,next_indices_first_r,extend_lpm}"],
@@ -275,35 +303,35 @@ H[:] = [x for x in H if not (x["name"].startswith("union_step_") and True)]
 # ------------------------------------------------------------------ quick tier: curated per property
 # (the thorough tier of a property runs every harness that lists it)
 QUICK = {
-    "C01": ["obs_get_n3", "obs_get_mut_n3", "obs_set_n3", "collect2", "insert_ret_n2", "remove_ret_n3", "rkt_ret_n3", "rmchildren_ret_n3",
-            "clear_n3", "entry_top[0124]_ret_n2", "entry_handle[012]_ret_n2", "retain_n2"],
+    "C01": ["obs_get_n3", "obs_get_mut_n3", "obs_set_n3", "insert_ret_n2", "remove_ret_n3", "rkt_ret_n3", "rmchildren_ret_n3",
+            "clear_n3", "entry_top[01]_ret_n2", "entry_handle[01]_ret_n2", "retain_lite_n2", "hist2_[01]"],
     "C02": ["obs_lpm_n3", "obs_lpm_mut_n3", "obs_cover_n3", "obs_set_n3"],
-    "C03": ["whole_iter_n3", "whole_iter_mut_n3", "whole_into_iter_n3", "whole_keys_values_clone_n3", "step_iter_n3", "step_iter_mut_n3"],
-    "C04": ["insert_len_n2", "remove_len_n3", "rkt_len_n3", "rmchildren_len_n3", "clear_n3", "entry_top[013]_len_n2", "entry_handle[012]_len_n2",
-            "retain_n2", "clone_n3", "collect2", "view_access[23]_n3", "occ_seq_plain_n2", "obs_set_n3"],
+    "C03": ["whole_iter_n3", "whole_iter_mut_n3", "whole_into_iter_n3", "step_iter_n3", "step_iter_mut_n3"],
+    "C04": ["insert_len_n2", "remove_len_n3", "rkt_len_n3", "rmchildren_len_n3", "clear_n3", "entry_top[01]_len_n2", "entry_handle[01]_len_n2",
+            "retain_lite_n2", "clone_n3", "hist2_1", "view_access[23]_n3", "occ_seq_plain_n2", "obs_set_n3"],
     "C05": ["union_init_(ro|mut)_n2", "union_helper0_n3", "union_whole_n1"],
     "C06": ["inter_(init|step)_(ro|mut)_n2", "inter_helper[012]_n3"],
     "C07": ["(diff|covdiff)_init_(ro|mut)_n2", "covdiff_step_ro_n2", "diff_helper[012]_n3"],
     "C08": ["union_init_ro_n2", "diff_init_(ro|mut)_n2", "union_whole_n1"],
     "C09": ["obs_spm_n3", "obs_cover_n3", "obs_cover_proj_n2", "obs_set_n3"],
-    "C10": ["children_n3", "children_init[012]_n3", "rmchildren_(ret|len|slots)_n3", "retain_n2"],
+    "C10": ["children_init[012]_n3", "step_iter_n3", "rmchildren_ret_n3", "retain_lite_n2", "retain_n2"],
     "C11": ["view_at_(ro|mut)_n3", "view_nav_(ro|mut)_n3", "view_find[03]_ro_n3", "view_access[02]_n3"],
     "C12": ["view_find[0-3]_(ro|mut)_n3"],
     "C13": ["obs_get_mut_n3", "obs_lpm_mut_n3", "whole_iter_mut_n3", "step_iter_mut_n3", "view_access[0-3]_n3", "inter_step_mut_n2",
             "union_init_mut_n2", "diff_init_mut_n2", "covdiff_init_mut_n2"],
     "C14": ["whole_iter_mut_n3", "step_iter_mut_n3", "view_nav_mut_n3", "view_find[02]_mut_n3", "view_access0_n3", "inter_step_mut_n2",
-            "obs_get_mut_n3", "split_interleave_n3"],
-    "C15": ["insert_shape_n2", "remove_shape_n[34]", "rkt_shape_n3", "rmchildren_shape_n3", "clear_n3", "entry_top[01]_shape_n2",
-            "entry_handle1_shape_n2", "retain_n2", "view_access2_n3", "canon_unique_n3"],
-    "C16": ["insert_slots_n2", "remove_slots_n[34]", "rkt_slots_n3", "rmchildren_slots_n3", "clear_n3", "entry_top[01]_slots_n2",
-            "entry_handle1_slots_n2", "retain_n2"],
+            "obs_get_mut_n3"],
+    "C15": ["insert_shape_n2", "remove_shape_n[34]", "rkt_shape_n3", "rmchildren_shape_n3", "clear_n3", "entry_top0_shape_n2",
+            "entry_handle1_shape_n2", "retain_lite_struct_n2", "view_access2_n3", "canon_unique_n4", "hist2_1"],
+    "C16": ["insert_slots_n2", "remove_slots_n[34]", "rkt_slots_n3", "rmchildren_slots_n3", "clear_n3", "entry_top0_slots_n2",
+            "entry_handle1_slots_n2", "retain_lite_struct_n2"],
     "C17": ["alg_.*"],
     "C18": ["obs_get_n3", "obs_lpm_n3", "obs_set_n3", "insert_ret_n2", "entry_top[01]_ret_n2", "entry_handle0_ret_n2", "whole_iter_n3",
-            "view_at_ro_n3", "view_access2_n3", "union_whole_n1", "inter_step_ro_n2", "collect2"],
-    "C19": ["eq_map_n2", "eq_set_n2", "clone_n3", "collect2"],
-    "C20": ["alg_u8", "alg_u32", "alg_u128", "alg_ipv4net", "obs_get_n3", "obs_cover_n3", "insert_ret_n2", "remove_ret_n3", "rmchildren_slots_n3",
-            "entry_handle1_ret_n2", "whole_iter_n3", "view_find0_ro_n3", "inter_step_ro_n2", "retain_n2", "occ_seq_plain_n2",
-            "occ_seq_after_remove_n2", "view_set_then_remove_n2", "entry_callback[012]_n2"],
+            "view_at_ro_n3", "view_access2_n3", "union_whole_n1", "inter_step_ro_n2", "hist2_0"],
+    "C19": ["eq_map_n1", "eq_set_n1", "clone_n3"],
+    "C20": ["retain_obs_n2", "alg_u8", "alg_u32", "alg_u128", "alg_ipv4net", "obs_get_n3", "obs_cover_n3", "insert_ret_n2", "remove_ret_n3",
+            "entry_handle1_ret_n2", "whole_iter_n3", "view_find0_ro_n3", "inter_step_ro_n2", "occ_seq_plain_n2",
+            "occ_seq_after_remove_.*_n2", "view_set_then_remove_n2", "entry_callback[012]_n2"],
     "SELFTEST": ["selftest_fail"],
 }
 import re as _re
